@@ -114,7 +114,7 @@ def execUnm (args : List String) : String :=
   | _ => "bad-op"
 
 /-- `unmre`: unmarshal arbitrary bytes, marshal the value in byte order `a2`, unmarshal again under the same base type and
-flags — the very terms of `C06_unmarshal_reencode_partial` -/
+flags — the very terms of `C06_unmarshal_reencode` -/
 def execUnmRe (args : List String) : String :=
   match args with
   | [_, _, _, _, _, _] =>
@@ -132,8 +132,7 @@ def execUnmRe (args : List String) : String :=
     | _, _, _, _, _, _ => "bad-op"
   | _ => "bad-op"
 
-/-- the property on the implementation's answer (`C06_unmarshal_reencode_partial`; for the string base type the same
-statement, `C06_unmarshal_reencode_full`): whenever the first read returned a value, it could be marshalled and the second
+/-- the property on the implementation's answer (`C06_unmarshal_reencode`, every base type): whenever the first read returned a value, it could be marshalled and the second
 read returned that very value -/
 def propUnmRe (impl : String) : String :=
   match impl.splitOn " " with
